@@ -339,12 +339,18 @@ fn main() {
     par_blocks(blocks.len(), |bi, _| {
         let (cv, l) = &blocks[bi];
         let Ok(cmd) = build_valid(&cv.spec) else { return };
-        let alpha = if cv.name.contains(':') { conv::hyphen_alphabet() } else { conv::alphabet(&cv.spec) };
+        let nested = cv.name.starts_with("nested:");
+        let alpha = if nested { conv::nested_alphabet() } else if cv.name.contains(':') { conv::hyphen_alphabet() } else { conv::alphabet(&cv.spec) };
         let mut h = Hist::new();
         let mut argv: Vec<Vec<u8>> = vec![];
         let mut idx = 0u64;
         for_each_seq(alpha.len(), *l, |s| {
             argv.clear();
+            if nested {
+                // the two steps down are fixed; the enumerated tokens are read two levels below the root
+                argv.push(b"sub".to_vec());
+                argv.push(b"deep".to_vec());
+            }
             argv.extend(s.iter().map(|i| alpha[*i].clone()));
             h.evaluations += 1;
             h.states += 1;
